@@ -396,7 +396,8 @@ def lloyd_aggregation(C, ratio=0.1, measure='unit', maxiter=5):
         raise ValueError(f'Unrecognized value measure={measure}')
 
     if C.dtype == complex:
-        data = np.real(data)
+        # (a copy: the real part of a complex array is a strided view)
+        data = np.ascontiguousarray(np.real(data))
 
     if len(data) > 0:
         if data.min() < 0:
@@ -535,7 +536,8 @@ def balanced_lloyd_aggregation(C, ratio=0.1, measure=None, maxiter=5,
         raise ValueError(f'Unrecognized value measure={measure}')
 
     if C.dtype == complex:
-        data = np.real(C.data)
+        # (a copy: the real part of a complex array is a strided view)
+        data = np.ascontiguousarray(np.real(data))
 
     if len(data) > 0:
         if data.min() < 0:
